@@ -108,6 +108,12 @@ func (p *Prosumer) dispatch(topics map[string][]Message) {
 }
 
 func (p *Prosumer) call(callback Callback, message Message) {
+	// callbacks run in a goroutine of their own: a panic there must not end the process
+	defer func() {
+		if e := recover(); e != nil {
+			p.onError(core.NewPanicError(e))
+		}
+	}()
 	switch callback := callback.(type) {
 	case func(Message):
 		callback(message)
@@ -141,6 +147,11 @@ func (p *Prosumer) call(callback Callback, message Message) {
 }
 
 func (p *Prosumer) message() {
+	defer func() {
+		if e := recover(); e != nil {
+			p.onError(core.NewPanicError(e))
+		}
+	}()
 	for {
 		topics, err := p.proxy.message()
 		if err == nil {
